@@ -34,7 +34,7 @@ class BFSResult:
 
 
 def bfs(init, step, letters, observe, *, max_states=2_000_000, max_seconds=600.0, max_depth=None,
-        on_edge=None):
+        on_edge=None, pass_hw=False):
     """``init``: (hw_state, obs_state).  ``letters(obs)`` -> iterable of input tuples.
     ``observe(obs, letter, outs)`` -> (err or None, obs').  ``on_edge(node, letter, outs, node2)``
     optional (graph bookkeeping for liveness checks)."""
@@ -55,7 +55,10 @@ def bfs(init, step, letters, observe, *, max_states=2_000_000, max_seconds=600.0
             hw, obs = node
             for letter in letters(obs):
                 outs, hw2 = step(hw, letter)
-                err, obs2 = observe(obs, letter, outs)
+                if pass_hw:
+                    err, obs2 = observe(obs, letter, outs, hw, hw2)
+                else:
+                    err, obs2 = observe(obs, letter, outs)
                 transitions += 1
                 if len(outcomes) < 50000:
                     outcomes.add(outs)
